@@ -3,7 +3,7 @@ other property's runs through the 'viol closure' verdict, and here on a sample o
 import common as C
 import gen as G
 
-THEOREMS = ['validity_exact']
+THEOREMS = ['validity_exact', 'valid_layouts_have_a_value', 'value_length_is_layout_length']
 RULE = ('layouts: value-first random type/value/encoding (all node classes, widths, offset origins, option encodings, '
         'string parameters); invalid stream = one documented rule broken at one random node. non-trivial = layout has '
         '>= 2 nodes; distinct by case text')
